@@ -18,6 +18,7 @@ def own(t): return ('own', t)
 def mir(t): return ('mir', t)
 def vecr(t): return ('vecr', t)
 STR = ('str',)
+CDC = ('cdc',)   # CodecRegion<DictionaryCodec, OwnedRegion<u8>>
 def strof(x): return ('strof', x)
 def sl(x, o='vec'): return ('sl', x, o)
 def opt(x): return ('opt', x)
@@ -70,6 +71,12 @@ ENTRIES = [
     ('res_sl_own_u8_cols', res(sl(own('u8')), cols(STR, 'vec'))),
     ('strof_con_own_u8', strof(con(own('u8'), 'iopt'))),
     ('strof_col_own_u8', strof(col(own('u8')))),
+    ('cdc', CDC),
+    ('strof_cdc', strof(CDC)),
+    ('con_strof_cdc', con(strof(CDC), 'iopt')),
+    ('sl_strof_cdc', sl(strof(CDC))),
+    ('cols_cdc', cols(CDC, 'iopt')),
+    ('col_cdc', col(CDC)),
 ]
 
 # FlatStack<R, S> entries: name -> (region expression, index container)
@@ -96,7 +103,7 @@ def by_name(): return dict(ENTRIES)
 def idx_kind(e):
     """shape of Region::Index: 'pair', 'usize', ('val', T), ('opt', k), ('res', a, b), ('tup', [..])"""
     k = e[0]
-    if k in ('own', 'sl'): return 'pair'
+    if k in ('own', 'sl', 'cdc'): return 'pair'
     if k == 'mir': return ('val', e[1])
     if k == 'vecr': return 'usize'
     if k == 'str': return 'pair'
@@ -111,6 +118,7 @@ def shape(e):
     """shape of Region::Owned, for the value generators"""
     k = e[0]
     if k == 'own': return ('list', ('n', e[1]))
+    if k == 'cdc': return ('list', ('n', 'u8'))
     if k in ('mir', 'vecr'): return ('n', e[1])
     if k in ('str', 'strof'): return ('str',)
     if k in ('sl', 'cols'): return ('list', shape(e[1]))
@@ -124,8 +132,9 @@ def contains(e, kind):
     return e[0] == kind or any(isinstance(x, tuple) and contains(x, kind) for x in e[1:])
 
 def caps(e):
-    c = {'clone': True, 'serde': True, 'heap': True, 'reserve_regions': True,
-         'reserve_items': not contains(e, 'col') and not contains(e, 'cols'), 'pushitem': True}
+    cd = contains(e, 'cdc')
+    c = {'clone': not cd, 'serde': not cd, 'heap': True, 'reserve_regions': True,
+         'reserve_items': not contains(e, 'col') and not contains(e, 'cols') and not cd, 'pushitem': True}
     return c
 
 def is_known_bad(e):
@@ -145,6 +154,7 @@ def rust_ic(o, idx_ty):
 def rust_type(e):
     k = e[0]
     if k == 'own': return f'OwnedRegion<{rust_elem(e[1])}>'
+    if k == 'cdc': return 'CodecRegion<DictionaryCodec>'
     if k == 'mir': return f'MirrorRegion<{rust_elem(e[1])}>'
     if k == 'vecr': return f'Vec<{rust_elem(e[1])}>'
     if k == 'str': return 'StringRegion'
@@ -162,7 +172,7 @@ def rust_type(e):
 def item_kind(e):
     """kind of Region::ReadItem, for the PartialEq bound of CollapseSequence"""
     k = e[0]
-    if k == 'own': return 'slice'
+    if k in ('own', 'cdc'): return 'slice'
     if k in ('str', 'strof'): return 'str'
     if k == 'mir': return 'val'
     if k == 'vecr': return 'ref'
@@ -173,6 +183,7 @@ def ref_ok(e):
     """does the region implement Push<&Owned> ?"""
     k = e[0]
     if k in ('own', 'str', 'mir', 'vecr'): return True
+    if k == 'cdc': return False
     if k == 'strof': return True
     if k in ('sl', 'cols', 'opt', 'con'): return ref_ok(e[1])
     if k in ('res', 'tup2'): return ref_ok(e[1]) and ref_ok(e[2])
@@ -183,6 +194,7 @@ def cmp_ok(e):
     """is the read item Ord (slices of comparable things, strings, integers)?"""
     k = e[0]
     if k == 'own': return e[1] not in ('f64',)
+    if k == 'cdc': return True
     if k == 'mir': return e[1] not in ('f64',)
     if k == 'vecr': return e[1] not in ('f64',)
     if k in ('str', 'strof'): return True
@@ -203,6 +215,8 @@ def elem_views(e):
                 ('owned', lambda v: f'{P(v)}.clone()', True),
                 ('refslice', lambda v: f'&{P(v)}.as_slice()', False),
                 ('iter', lambda v: f'PushIter({P(v)}.iter().copied())', True)]
+    if k == 'cdc':
+        return [('slice', lambda v: f'{P(v)}.as_slice()', True)]
     if k in ('mir', 'vecr'):
         return [('ref', lambda v: v, True), ('val', lambda v: f'*{P(v)}', True), ('refref', lambda v: f'&{P(v)}', False)]
     if k in ('str', 'strof'):
@@ -279,6 +293,7 @@ def gen_rust():
     out = ['// GENERATED by tools/catalogue.py -- do not edit', '#![allow(unused_imports)]',
            'use crate::run::*;', 'use crate::wire::*;',
            'use flatcontainer::impls::deduplicate::{CollapseSequence, ConsecutiveIndexPairs};',
+           'use flatcontainer::impls::codec::{CodecRegion, DictionaryCodec};',
            'use flatcontainer::impls::index::{IndexList, IndexOptimized};',
            'use flatcontainer::impls::tuple::*;', 'use flatcontainer::*;', '']
     seen = {}
@@ -388,6 +403,7 @@ def coq_term(e, ctr=None):
         i = ctr[0]; ctr[0] += 1; return f'(nth {i} szs 0%N)'
     k = e[0]
     if k == 'own': return f'(m_owned {coq_elem(e[1])})'
+    if k == 'cdc': return 'm_codec'
     if k == 'mir': return f'(m_mirror {coq_elem(e[1])})'
     if k == 'vecr': return f'(m_vec {coq_elem(e[1])})'
     if k == 'str': return '(m_string str_wf (m_owned (e_word 8)))'
@@ -418,7 +434,7 @@ def coq_term(e, ctr=None):
 def gen_coq():
     out = ['(* GENERATED by tools/catalogue.py -- do not edit *)',
            'From FC Require Import Base.Res Base.Utf8 Index.IC Index.Stride Region.Region Region.Owned Region.Simple',
-           '  Region.Slice Region.Collapse Region.Consec Region.Columns Region.Items Model.Wire Model.Pairs Model.FSMachine.',
+           '  Region.Slice Region.Collapse Region.Consec Region.Columns Codec.Dictionary Region.Items Model.Wire Model.Pairs Model.FSMachine.',
            'Set Implicit Arguments.', '',
            'Definition entry (chk : bool) (szs : list N) (n : N) : option MRegion :=',
            '  match n with']
